@@ -322,6 +322,29 @@ def generate(tier, seed, ctx):
         pref, mul = pick_pref(rng)
         Q = queries_1d(rng, xs, nseg=(20 if thorough else 9), ndense=50, shuffle=(k % 3 != 0))
         R.append(req_1d("c01.eval", "gen:%s:%s" % (xk, yk), xs, ys, -1.0, -1.0, pref, mul, Q))
+    # ---- nearly equidistant tables (seventh wave, C01-r): a uniform grid of 32..257 knots whose first and last spacing and total
+    #      length are untouched while a run of 1..6 consecutive interior knots is displaced by up to several spacings (the table
+    #      stays strictly increasing) - what a shortcut that derives the interval index from (x-x_0)/h_0 after testing only the
+    #      ends gets wrong; every interval is queried
+    for k in range(60 if thorough else 8):
+        N = rng.choice([32, 33, 40, 64, 100, 257] if thorough else [32, 40, 64, 100])
+        h0 = 2.0 ** rng.randint(-6, 3); x0 = h0 * rng.randint(-200, 200)
+        xs = [x0 + i * h0 for i in range(N)]
+        run = rng.randint(1, 6); st = rng.randint(2, N - 3 - run - 8)
+        up = rng.random() < 0.5
+        for t in range(run):     # pack the run against the next (or previous) untouched knot
+            if up:
+                xs[st + t] = xs[st + run] - h0 * (run - t) / 8.0 if rng.random() < 0.5 else xs[st + t] + h0 * (run - 0.5) * (t + 1) / (run + 1)
+            else:
+                xs[st + t] = xs[st - 1] + h0 * (t + 1) / 8.0
+        xs = sorted(set(xs))
+        if len(xs) < 32 or any(b <= a for a, b in zip(xs, xs[1:])):
+            continue
+        yk = rng.choice(YKINDS)
+        ys = gen_ys(rng, xs, yk)
+        pref, mul = pick_pref(rng)
+        Q = queries_1d(rng, xs, nseg=len(xs), ndense=20, shuffle=(k % 2 == 0))
+        R.append(req_1d("c01.eval", "gen:neareq:%s" % yk, xs, ys, -1.0, -1.0, pref, mul, Q))
     # ---- exact linear data (any spacing) --------------------------------------------------------
     for k in range(150 if thorough else 10):
         N = rng.choice([3, 4, 7, 20, 60])
